@@ -888,10 +888,10 @@ def fam_ulp32(rng):
 FAMILIES['ulp32'] = fam_ulp32
 
 
-def fam_abut(rng):
+def fam_abut(rng, frame_only=False):
     """interior-disjoint operands that share boundary segments: B is a random set of cells of the COMPLEMENT of A adjacent to A
     (so B touches A from outside — below, above, left, right, around holes), A typically has holes"""
-    if rng.random() < 0.35:
+    if frame_only or rng.random() < 0.35:
         # a frame (box with a hole) and a slab abutting one of its sides along part of an edge, the hole lying directly
         # behind the shared piece; all 8 poses
         W, H = rng.randrange(4, 9), rng.randrange(4, 9)
@@ -1034,9 +1034,10 @@ def with_repeats(rng, o):
 
 
 FAMILIES['abut'] = fam_abut
+FAMILIES['frameslab'] = lambda rng: (lambda r: (r[0], r[1], dict(r[2], family='frameslab')))(fam_abut(rng, frame_only=True))
 FAMILIES['punch'] = fam_punch
 FAMILIES['tjunc'] = fam_tjunc
-EXACT_FAMILIES = EXACT_FAMILIES + ('abut', 'punch')
+EXACT_FAMILIES = EXACT_FAMILIES + ('abut', 'punch', 'frameslab')
 
 
 def fam_tjunc_oct(rng):
